@@ -98,6 +98,10 @@ var c12classes = []c12class{
 	{"range-two-var-no-index", `{{range k, v := zq_ch}}x{{end}}`, true, false},
 	{"yield-arg-without-value", `{{yield zq_blk(q)}}`, true, false},
 	{"slot-without-pipe", `{{ trimSpace(_) }}`, true, false},
+	{"slot-without-pipe-in-variadic-tail", `{{ zq_join("-", "a", _) }}`, true, false},
+	{"slot-without-pipe-first-of-variadic", `{{ zq_join(_, "a") }}`, true, false},
+	{"slot-without-pipe-variadic-only", `{{ zq_cat(_) }}`, true, false},
+	{"slot-without-pipe-prefix-form", `{{ zq_join: "-", _ }}`, true, false},
 	{"assign-undeclared", `{{ zq_undeclared = 1 }}`, true, false},
 	{"block-param-without-default", `{{block zq_blk2(p)}}x{{end}}`, true, false},
 	{"func-panics-with-error", `{{ zq_fail() }}`, false, false},
@@ -124,6 +128,8 @@ func c12extra() map[string]interface{} {
 		"zq_many": map[interface{}]string{"a": "x"}, "zq_dyn": struct{ ID interface{} }{[]int{7}},
 		"zq_mpair": map[[2]interface{}]string{{"a", 1}: "x"}, "zq_pair": [2]interface{}{"a", map[string]int{"z": 1}},
 		"zq_stringer": func(s fmt.Stringer) string { return s.String() },
+		"zq_join":     func(sep string, parts ...string) string { return strings.Join(parts, sep) },
+		"zq_cat":      func(parts ...string) string { return strings.Join(parts, "") },
 		"zq_fail":     func() string { panic(errors.New("zq_fail reports an error")) },
 		"zq_fail1":    func(int) string { panic(fmt.Errorf("zq_fail1 reports an error")) },
 		"zq_jf": jet.Func(func(a jet.Arguments) reflect.Value {
